@@ -219,16 +219,18 @@ static void svd_sweep(const Desc& d)
         const int m = rep ? 40 + r.below(20) : 60 + r.below(30), n = rep ? 60 + r.below(30) : 40 + r.below(20);
         const int mn = std::min(m, n);
         VecL s(mn);
-        const LD lead[5] = {3.0L, 2.8L, 2.6L, 2.40L, 2.39L};
+        // two close wanted values followed by a dense tail (1.925, 1.91, ...): slow enough that for a window of one or two restarts the
+        // 5th triplet has converged and the 4th has not
+        const LD lead[7] = {3.0L, 2.8L, 2.6L, 2.40L, 2.39L, 1.925L, 1.91L};
         for (int i = 0; i < mn; i++)
-            s[i] = i < 5 ? lead[i] : 1.0L / (LD)(i - 3);
+            s[i] = i < 7 ? lead[i] : 1.9L * std::pow(0.97L, (LD)(i - 6));
         MatL U = rand_orth(m, r), V = rand_orth(n, r);
         MatL AL0 = U.leftCols(mn) * s.asDiagonal() * V.leftCols(mn).transpose();
         Eigen::MatrixXd A = AL0.cast<double>();
         MatL AL = A.cast<LD>();
         Eigen::JacobiSVD<MatL> ref(AL);
         VecL sref = ref.singularValues();
-        const int ncv = 7 + r.below(4);
+        for (int ncv = 6; ncv <= 11; ncv++)
         for (int mx = 1; mx <= 40; mx++)
         {
             PartialSVDSolver<Eigen::MatrixXd> svd(A, 5, ncv);
@@ -384,15 +386,15 @@ static void mode_svdseq(const Desc& d)
 
 // partial convergence with a REPEATED leading singular value (10, 10, 5, 4.5, 4.4, ...): the second copy of the tie emerges late and
 // lands between Ritz values that have already converged, so that the converged flags pass through [1,0,1] / [0,1,0]; every ncv in
-// 5..8 and every maxit in 0..24.  Whatever is returned must be consistent (the values are matched to the nearest reference value).
+// 5..8 and every maxit in 0..39, four matrices.  Whatever is returned must be consistent (the values are matched to the nearest reference value).
 static void svd_sweep_tie(const Desc& d)
 {
-    for (int rep = 0; rep < 2; rep++)
+    for (int rep = 0; rep < 4; rep++)
     {
         if (!case_selected(d, 2000 + rep, "svd"))
             continue;
         Rng r((uint64_t) d.i("seed", 1) * 57 + 9 + 7919ULL * (uint64_t) rep);
-        const int m = rep ? 30 : 60, n = rep ? 60 : 30;
+        const int m = (rep % 2) ? 30 : 60, n = (rep % 2) ? 60 : 30;
         const int mn = std::min(m, n);
         VecL s(mn);
         for (int i = 0; i < mn; i++)
@@ -404,7 +406,7 @@ static void svd_sweep_tie(const Desc& d)
         Eigen::JacobiSVD<MatL> ref(AL);
         VecL sref = ref.singularValues();
         for (int ncv = 5; ncv <= 8; ncv++)
-            for (int mx = 0; mx <= 24; mx++)
+            for (int mx = 0; mx <= 39; mx++)
             {
                 PartialSVDSolver<Eigen::MatrixXd> svd(A, 3, ncv);
                 ll nconv = (ll) svd.compute(mx, 1e-10);
